@@ -277,8 +277,15 @@ def run(shard, ctx):
     else:
         for v in list(range(-3, 4)) + list(range(124, 131)) + [255, 256, 1000, -128]:
             okv = 0 <= v <= 127
-            for how in ("set_velocity", "ctor-velocity", "ctor-dynamics", "set_note-velocity", "set_note-dynamics"):
-                if how == "set_velocity":
+            for how in ("set_velocity", "ctor-velocity", "ctor-dynamics", "set_note-velocity", "set_note-dynamics", "ctor-text-velocity",
+                        "ctor-text-dynamics", "set_note-text-velocity"):
+                if how == "ctor-text-velocity":
+                    st, r = ctx.call(lambda: Note("C-4", velocity=v))
+                elif how == "ctor-text-dynamics":
+                    st, r = ctx.call(lambda: Note("F#-3", 4, {"velocity": v}))
+                elif how == "set_note-text-velocity":
+                    st, r = ctx.call(lambda: Note().set_note("Bb-2", velocity=v))
+                elif how == "set_velocity":
                     st, r = ctx.call(Note("C", 4).set_velocity, v)
                     got = None
                 elif how == "ctor-velocity":
@@ -299,8 +306,15 @@ def run(shard, ctx):
                 ctx.case(("velocity", v, how))
         for c in list(range(-3, 4)) + list(range(13, 20)) + [127, 128, 255, -16]:
             okc = 0 <= c <= 15
-            for how in ("set_channel", "ctor-channel", "ctor-dynamics", "set_note-channel", "set_note-dynamics"):
-                if how == "set_channel":
+            for how in ("set_channel", "ctor-channel", "ctor-dynamics", "set_note-channel", "set_note-dynamics", "ctor-text-channel",
+                        "ctor-text-dynamics", "set_note-text-channel"):
+                if how == "ctor-text-channel":
+                    st, r = ctx.call(lambda: Note("C-4", channel=c))
+                elif how == "ctor-text-dynamics":
+                    st, r = ctx.call(lambda: Note("F#-3", 4, {"channel": c}))
+                elif how == "set_note-text-channel":
+                    st, r = ctx.call(lambda: Note().set_note("Bb-2", channel=c))
+                elif how == "set_channel":
                     st, r = ctx.call(Note("C", 4).set_channel, c)
                 elif how == "ctor-channel":
                     st, r = ctx.call(Note, "C", 4, None, None, c)
